@@ -61,3 +61,7 @@ impl Synchronize {
         self.happens_before.join(&threads.active().causality);
     }
 }
+
+#[cfg(loom_verif)]
+#[path = "/verif/hooks/synchronize_verif.rs"]
+pub(crate) mod verif;
